@@ -11,6 +11,9 @@ import NB.Drv.C17
 import NB.Drv.C10
 import NB.Drv.C18
 import NB.Drv.C06
+import NB.Drv.C08
+import NB.Drv.C03
+import NB.Drv.C07
 
 def handlers : List (String × (String → List String → Option (String × String))) :=
   [ ("C01", NB.Drv.C01.handle),
@@ -20,7 +23,10 @@ def handlers : List (String × (String → List String → Option (String × Str
     ("C17", NB.Drv.C17.handle),
     ("C10", NB.Drv.C10.handle),
     ("C18", NB.Drv.C18.handle),
-    ("C06", NB.Drv.C06.handle) ]
+    ("C06", NB.Drv.C06.handle),
+    ("C08", NB.Drv.C08.handle),
+    ("C03", NB.Drv.C03.handle),
+    ("C07", NB.Drv.C07.handle) ]
 
 def answer (line : String) : String :=
   match (line.trimAscii.toString.splitOn " ").filter (· ≠ "") with
